@@ -224,7 +224,8 @@ class SimOS(types.ModuleType):
                 raise FileNotFoundError(errno.ENOENT, "simulated: no such file", src)
             fs.files[d_] = fs.files.pop(s_)
             return None
-        return self._real.replace(src, dst, *a, **k)
+        real = (getattr(self._fs, "_saved", None) or {}).get("os.replace") or self._real.replace
+        return real(src, dst, *a, **k)
 
     rename = replace
 
@@ -235,14 +236,16 @@ class SimOS(types.ModuleType):
                 raise FileNotFoundError(errno.ENOENT, "simulated: no such file", p)
             del self._fs.files[p_]
             return None
-        return self._real.remove(p, *a, **k)
+        real = (getattr(self._fs, "_saved", None) or {}).get("os.remove") or self._real.remove
+        return real(p, *a, **k)
 
     unlink = remove
 
     def fsync(self, fd):
         if isinstance(fd, int) and fd >= 10**6:
             return None
-        return self._real.fsync(fd)
+        real = (getattr(self._fs, "_saved", None) or {}).get("os.fsync") or self._real.fsync
+        return real(fd)
 
 
 class _SimOSPath:
@@ -308,6 +311,61 @@ class SimFS:
         self.eager = False
         self.opens = 0
 
+    # -- optional process-wide activation for the duration of one save/load operation -------------------
+    # pyoma2.functions.gen.open (and gen.os when present) are rebound permanently; an implementation that reaches
+    # the disk through pathlib / io instead would bypass them, so while a persistence operation is in flight the
+    # same simulated disk is also put behind builtins.open, io.open and the few os functions pathlib uses.
+    def activate(self):
+        import io as _io
+
+        if getattr(self, "_saved", None):
+            return
+        simos = SimOS(os, self)
+        real_stat = os.stat
+        fs = self
+
+        def stat(path, *a, **k):
+            sp = sim_path(path) if not isinstance(path, int) else None
+            if sp is None:
+                return real_stat(path, *a, **k)
+            if sp not in fs.files:
+                raise FileNotFoundError(errno.ENOENT, "simulated: no such file", str(path))
+            n = len(fs.files[sp])
+            return os.stat_result((0o100644, 0, 0, 1, 0, 0, n, 0, 0, 0))
+
+        self._saved = {
+            "builtins.open": builtins.open, "io.open": _io.open, "os.replace": os.replace, "os.rename": os.rename,
+            "os.remove": os.remove, "os.unlink": os.unlink, "os.fsync": os.fsync, "os.stat": os.stat,
+        }
+        real_open = builtins.open
+
+        def sim_open(path, mode="r", *a, **k):
+            if not isinstance(path, int) and sim_path(path) is not None:
+                return fs.open(path, mode, *a, **k)
+            return real_open(path, mode, *a, **k)
+
+        builtins.open = sim_open
+        _io.open = sim_open
+        os.replace = simos.replace
+        os.rename = simos.replace
+        os.remove = simos.remove
+        os.unlink = simos.remove
+        os.fsync = simos.fsync
+        os.stat = stat
+
+    def deactivate(self):
+        import io as _io
+
+        sv = getattr(self, "_saved", None)
+        if not sv:
+            return
+        builtins.open = sv["builtins.open"]
+        _io.open = sv["io.open"]
+        os.replace, os.rename = sv["os.replace"], sv["os.rename"]
+        os.remove, os.unlink = sv["os.remove"], sv["os.unlink"]
+        os.fsync, os.stat = sv["os.fsync"], sv["os.stat"]
+        self._saved = None
+
     def begin_op(self, crash_after=None, eager=False):
         self.crash_after = crash_after
         self.written = 0
@@ -319,7 +377,8 @@ class SimFS:
         sp = sim_path(path)
         if sp is None:
             # anything else (matplotlib fonts, ...) is not ours
-            return builtins.open(path, mode, *a, **k)
+            real = (getattr(self, "_saved", None) or {}).get("builtins.open", builtins.open)
+            return real(path, mode, *a, **k)
         path = sp
         self.plan.tick("fs.open")
         if "w" in mode or "x" in mode:
